@@ -7,6 +7,7 @@ import (
 	"fmt"
 	"math/rand"
 	"reflect"
+	"runtime"
 	"sort"
 	"strconv"
 	"strings"
@@ -35,6 +36,12 @@ import (
 //                order in which the script thread saw it, with wall-clock stamps.
 // kind "stress": several publishers with unique payloads against polling consumers; every call
 //                and every poll result is recorded for the property oracle.
+// kind "subrace": in every round 2-3 subscribe calls of ONE client id and topic (two connections of one
+//                id, or the Prosumer's re-subscribe loop racing with Subscribe) start together with a
+//                publisher that sends one message as soon as the subscription exists; then the client
+//                polls.  The subscribes go through the published function "+" of the service's method
+//                manager with a service context carrying the id (no codec in between, so that the calls
+//                really overlap); the publisher uses Broker.Push; the polls are ordinary RPC calls.
 // kind "forced": racing orders forced at the verif yield points (hook_verif.go, only built when
 //                the tree under test has the hook).
 //
@@ -64,6 +71,9 @@ type c19Case struct {
 	Mode       string `json:"mode,omitempty"` // traffic | timeouts
 	Churn      bool   `json:"churn,omitempty"`
 	Seed       int64  `json:"seed,omitempty"`
+	// subrace
+	Subscribers int `json:"subscribers,omitempty"`
+	DurationMs  int `json:"duration_ms,omitempty"`
 	// forced
 	Scenario string `json:"scenario,omitempty"`
 }
@@ -90,6 +100,8 @@ type c19Obs struct {
 	Polls  []stressPoll `json:"polls,omitempty"`
 	Subs   []stressSub  `json:"subs,omitempty"`
 	Notes  []string     `json:"notes,omitempty"`
+	// subrace
+	Race *raceObs `json:"race,omitempty"`
 	// forced
 	Forced map[string]interface{} `json:"forced,omitempty"`
 	Unsupported bool              `json:"unsupported,omitempty"`
@@ -716,6 +728,151 @@ func runStress(c *c19Case, obs *c19Obs) {
 	}
 }
 
+// ------------------------------------------------------------------ kind "subrace"
+
+type raceFail struct {
+	Round int      `json:"round"`
+	C     int      `json:"c"`
+	M     int64    `json:"m"`
+	Subs  []string `json:"subs"`
+	Pub   string   `json:"pub"`
+	Polls []string `json:"polls"`
+	Got   []int64  `json:"got"`
+}
+
+type raceObs struct {
+	Rounds       int        `json:"rounds"`
+	Accepted     int        `json:"accepted"`
+	Delivered    int        `json:"delivered"`
+	SubTrue      map[int]int `json:"sub_true"` // how many of the racing subscribes reported true -> rounds
+	Lost         []raceFail `json:"lost,omitempty"`
+	Dup          []raceFail `json:"dup,omitempty"`
+	TwoTrue      []raceFail `json:"two_true,omitempty"`
+	LostCount    int        `json:"lost_count"`
+	DupCount     int        `json:"dup_count"`
+	TwoTrueCount int        `json:"two_true_count"`
+}
+
+func runSubRace(c *c19Case, obs *c19Obs) {
+	ro := &raceObs{SubTrue: map[int]int{}}
+	obs.Race = ro
+	nsub := c.Subscribers
+	if nsub < 2 {
+		nsub = 2
+	}
+	deadline := time.Now().Add(time.Duration(c.DurationMs) * time.Millisecond)
+	const topic = 7
+	for time.Now().Before(deadline) {
+		e := newEnv(c.TimeoutMs, c.HeartbeatMs)
+		plus := e.svc.Get("+")
+		if plus == nil {
+			obs.Err = "the service publishes no \"+\""
+			e.close()
+			return
+		}
+		fn := plus.Func()
+		for k := 1; k <= 200 && time.Now().Before(deadline); k++ {
+			ro.Rounds++
+			id := cid(k)
+			sc := core.NewServiceContext(e.svc)
+			sc.RequestHeaders().Set("id", id)
+			ctx := core.WithContext(context.Background(), sc)
+			args := []reflect.Value{reflect.ValueOf(ctx), reflect.ValueOf(tid(topic))}
+			m := int64(ro.Rounds)
+			var ready, stop int32
+			var wg sync.WaitGroup
+			subs := make([]string, nsub)
+			pub := "-"
+			wg.Add(nsub + 1)
+			for i := 0; i < nsub; i++ {
+				go func(i int) {
+					defer wg.Done()
+					defer func() {
+						if p := recover(); p != nil {
+							subs[i] = fmt.Sprintf("PANIC:%v", p)
+						}
+					}()
+					atomic.AddInt32(&ready, 1)
+					for atomic.LoadInt32(&ready) < int32(nsub+1) {
+						runtime.Gosched()
+					}
+					out := fn.Call(args)
+					subs[i] = tf(out[0].Bool())
+				}(i)
+			}
+			go func() {
+				defer wg.Done()
+				atomic.AddInt32(&ready, 1)
+				for atomic.LoadInt32(&ready) < int32(nsub+1) {
+					runtime.Gosched()
+				}
+				for atomic.LoadInt32(&stop) == 0 {
+					if r := e.broker.Push(m, tid(topic), id); r[id] {
+						pub = strconv.Itoa(k) + ":T"
+						return
+					}
+				}
+			}()
+			tm := time.AfterFunc(50*time.Millisecond, func() { atomic.StoreInt32(&stop, 1) })
+			wg.Wait()
+			tm.Stop()
+			nt := 0
+			for _, r := range subs {
+				if r == "T" {
+					nt++
+				}
+			}
+			ro.SubTrue[nt]++
+			rec := raceFail{Round: ro.Rounds, C: k, M: m, Subs: subs, Pub: pub}
+			if nt != 1 {
+				ro.TwoTrueCount++
+				if len(ro.TwoTrue) < 3 {
+					ro.TwoTrue = append(ro.TwoTrue, rec)
+				}
+			}
+			if pub == "-" {
+				continue
+			}
+			ro.Accepted++
+			// the message is queued: the first poll returns it at once; every 8th round one more poll
+			// checks that nothing comes twice
+			var got []int64
+			npolls := 1
+			if ro.Rounds%8 == 0 {
+				npolls = 2
+			}
+			for n := 0; n < npolls; n++ {
+				r, by := e.poll(k)
+				rec.Polls = append(rec.Polls, r)
+				got = append(got, by[topic]...)
+				if r == "N" || strings.HasPrefix(r, "ERR") {
+					break
+				}
+			}
+			rec.Got = got
+			cnt := 0
+			for _, x := range got {
+				if x == m {
+					cnt++
+				}
+			}
+			ro.Delivered += cnt
+			if cnt == 0 {
+				ro.LostCount++
+				if len(ro.Lost) < 3 {
+					ro.Lost = append(ro.Lost, rec)
+				}
+			} else if cnt > 1 || len(got) > cnt {
+				ro.DupCount++
+				if len(ro.Dup) < 3 {
+					ro.Dup = append(ro.Dup, rec)
+				}
+			}
+		}
+		e.close()
+	}
+}
+
 // ------------------------------------------------------------------ kind "forced"
 
 var runForced = func(c *c19Case, obs *c19Obs) { obs.Unsupported = true }
@@ -744,6 +901,8 @@ func c19Run(line []byte, out *json.Encoder) error {
 			runSeq(&c, &obs)
 		case "stress":
 			runStress(&c, &obs)
+		case "subrace":
+			runSubRace(&c, &obs)
 		case "forced":
 			runForced(&c, &obs)
 		default:
